@@ -302,6 +302,15 @@ func (c *ctx) roundTrip(what string, in, stream []byte, crc bool, src lzwork.Sou
 		res.Total == int64(len(in)) && bytes.Equal(res.Out, in) {
 		c.o.Count("roundtrips_identical", 1)
 		c.o.Count("bytes_compared", int64(len(in)))
+		if res.ClosedTwice {
+			// the checked-defer idiom closes twice and keeps an error. "Already closed" would be an answer; a verdict of
+			// corruption about a stream that has just been reproduced exactly is not.
+			c.o.Count("valid_streams_closed_twice", 1)
+			if lzwork.SaysCorrupt(res.Close2Err) {
+				c.violate("reader-close-error:second-close", map[string]any{"input": what, "mode": modeName(crc), "source": src},
+					"%s: all %d bytes were reproduced and Close returned nil, a second Close on the same Reader calls the stream corrupt: %v", what, len(in), res.Close2Err)
+			}
+		}
 		if (len(in)+len(stream))%4 == 0 {
 			// the caller knows the length (it is in the proposal) and reads exactly that many bytes - io.ReadFull, io.CopyN -
 			// and closes without ever asking for the end-of-stream result: everything was read, Close must say so
